@@ -62,8 +62,15 @@ impl<C: Suite> M13<C> {
         let msg = msg_of(self.seed, st.len, 3);
         let ent = entropy_stream(self.seed, &format!("c13-{}-{}-{}-{}", st.s.name(), st.k, st.len, st.id), 1);
         let pk = self.sks[st.k].public_key();
-        let ct = with_env(ent, None, || pk.encrypt_time_lock(lib_scheme(st.s), &msg, &self.ids[st.id])).expect("encrypt_time_lock panicked").expect("encrypt_time_lock");
+        let ct = with_env(ent, None, || pk.encrypt_time_lock(lib_scheme(st.s), &msg, &self.ident(st.k, st.id))).expect("encrypt_time_lock panicked").expect("encrypt_time_lock");
         (ct, msg)
+    }
+    /// identifier alphabet: the fixed ones, then identifiers built from the recipient's public key bytes
+    fn ident(&self, k: usize, i: usize) -> Vec<u8> {
+        if i < self.ids.len() {
+            return self.ids[i].clone();
+        }
+        special_message(&Vec::<u8>::from(&self.sks[k].public_key()), i - self.ids.len())
     }
     fn shares(&self, st: &St, i: usize) -> Vec<SecretKeyShare<C>> {
         let (t, n) = self.splits[i];
@@ -82,7 +89,10 @@ impl<C: Suite> Model for M13<C> {
         for s in SCHEMES {
             for k in 0..2 {
                 for &len in &self.lens {
-                    for id in 0..self.ids.len() {
+                    for id in 0..self.ids.len() + SPECIAL_MESSAGES.len() {
+                        if id >= self.ids.len() && !(len == 33 || len == 0) {
+                            continue;
+                        }
                         v.push(St { s, k, len, id, base: false, dev: None });
                     }
                 }
@@ -190,7 +200,7 @@ impl<C: Suite> Model for M13<C> {
         let ls = lib_scheme(st.s);
         let (ct0, msg) = self.seal(st);
         o.calls(1);
-        let id = &self.ids[st.id];
+        let id = &self.ident(st.k, st.id);
         let mut sig = match guard(|| sk.sign(ls, id)) {
             Ok(Ok(s)) => s,
             r => {
@@ -241,7 +251,10 @@ impl<C: Suite> Model for M13<C> {
                     let _ = shares[0].0.identifier();
                 }
                 Dev::WrongId => {
-                    sig = sk.sign(ls, b"another identifier").unwrap();
+                    // for identifiers that start with the key bytes, the "other" identifier is the part after them
+                    let pkb = Vec::<u8>::from(&sk.public_key());
+                    let other: Vec<u8> = if id.len() >= pkb.len() && id[..pkb.len()] == pkb[..] { id[pkb.len()..].to_vec() } else { b"another identifier".to_vec() };
+                    sig = sk.sign(ls, &other).unwrap();
                     wrong_sig = true;
                 }
                 Dev::WrongKey => {
